@@ -88,16 +88,27 @@ deriving Repr, DecidableEq
 
 def maxStack : Nat := Gen.t2maxStack
 
+/-- the `continue` test of the rlineto loop: the next command is a line with both deltas non-zero
+and there is room for it -/
+def lineGoOn (rest : List Seg) (n : Nat) : Bool :=
+  match rest with
+  | .line dx' dy' :: _ => !dx'.isZero && !dy'.isZero && decide (n + 2 ≤ maxStack)
+  | _ => false
+
+/-- the `continue` test of the rrcurveto loop -/
+def curveGoOn (rest : List Seg) (n : Nat) : Bool :=
+  match rest with
+  | .curve b0 b1 _ _ b4 b5 :: _ =>
+    !b0.isZero && !b1.isZero && !b4.isZero && !b5.isZero && decide (n + 6 ≤ maxStack)
+  | _ => false
+
 /-- "{dx dy}+ rlineto": returns the edges, and `code`, `pos`, remaining commands after the loop -/
 def rlineEdges (frm : Nat) : List Seg → List EncNum → Nat → List Edge × List EncNum × Nat × List Seg
   | .line dx dy :: rest, code, pos =>
     if code.length + 2 ≤ maxStack then
       let code' := code ++ [dx, dy]
-      let goOn := match rest with
-        | .line dx' dy' :: _ => !dx'.isZero && !dy'.isZero && decide (code'.length + 2 ≤ maxStack)
-        | _ => false
       let r := rlineEdges frm rest code' (pos + 1)
-      if goOn then r else (⟨code', .rlineto, frm + pos + 1⟩ :: r.1, r.2)
+      if lineGoOn rest code'.length then r else (⟨code', .rlineto, frm + pos + 1⟩ :: r.1, r.2)
     else ([], code, pos, .line dx dy :: rest)
   | rest, code, pos => ([], code, pos, rest)
 
@@ -116,12 +127,8 @@ def rrcurveEdges (frm : Nat) : List Seg → List EncNum → Nat → List Edge ×
   | .curve a0 a1 a2 a3 a4 a5 :: rest, code, pos =>
     if code.length + 6 ≤ maxStack then
       let code' := code ++ [a0, a1, a2, a3, a4, a5]
-      let goOn := match rest with
-        | .curve b0 b1 _ _ b4 b5 :: _ =>
-          !b0.isZero && !b1.isZero && !b4.isZero && !b5.isZero && decide (code'.length + 6 ≤ maxStack)
-        | _ => false
       let r := rrcurveEdges frm rest code' (pos + 1)
-      if goOn then r else (⟨code', .rrcurveto, frm + pos + 1⟩ :: r.1, r.2)
+      if curveGoOn rest code'.length then r else (⟨code', .rrcurveto, frm + pos + 1⟩ :: r.1, r.2)
     else ([], code, pos, .curve a0 a1 a2 a3 a4 a5 :: rest)
   | rest, code, pos => ([], code, pos, rest)
 
